@@ -23,14 +23,11 @@ CFG = {
     "level_note": "Trusted: Coq kernel + vm_compute; hand model of semaphore.go / map.go / wmap.go (C01_Model.v on top of Semap.v) tied by the "
                   "correspondence run; sync.Mutex, channel close/receive, select and context cancellation are modelled (one label per critical "
                   "section; the cancel path's `case <-ready` is the model's no-op Cancel of a holder), not verified; the harness's schedule "
-                  "forcing and quiescence detection; the verif hooks VerifKeyState / VerifEntries.  The lint covers SemMap.release only: "
-                  "SemMap.acquire hands its lock to Weighted.acquire, which unlocks on three paths - a shape outside the lint's patterns; that "
-                  "every shared access of acquire happens under the map mutex is exercised by the free-running stress class (in-section "
-                  "monitor counters) instead.  Deadline contexts are not generated (only explicit cancellation): the code path is the same "
+                  "forcing and quiescence detection; the verif hooks VerifKeyState / VerifEntries.  The lint checks SemMap.release (lock / deferred unlock) and, in mode 'handoff', that SemMap.acquire is one critical section handed unbroken to Weighted.acquire (look-up, entry creation and grant/enqueue under one hold of the map mutex) - the atomicity the labels of the model stand for; a lint failure sends the driver into the search mode of the harness.  The forced schedules issue one call at a time and therefore cannot put two callers inside one critical section; races inside a label are looked for by the free-running classes: stress (in-section monitor counters, cancellations racing against grants) and fresh-key-burst (every round 8..16 callers let loose from a spin barrier on a never-used key, in-section counters, VerifEntries = 0 after the round).  Deadline contexts are not generated (only explicit cancellation): the code path is the same "
                   "(ctx.Done()).  The stress class has no label trace, so for it case_accept = case_holds = the in-section monitor summary.  "
                   "No axioms; nothing PENDING.",
     "rule": "a forced schedule is non-trivial when at some step a caller was observed queued (waiter count > 0 on some key); a stress run "
-            "when more than one reader or at least one writer was seen inside a critical section; distinct = distinct "
+            "when more than one reader or at least one writer was seen inside a critical section; a fresh-key-burst summary when at least one round ran; distinct = distinct "
             "(rwRatio, number of keys, labels, observations) - the container variant and shard count are not part of the Coq term",
     "trusted": ["forced-schedule driver of harness/cmd/c01 (one goroutine per pending Acquire*, done-channel per caller, polling of "
                 "semap.VerifKeyState until every not-returned caller of a key is in its wait queue; the only time-outs are 10 s bounds on "
@@ -40,5 +37,7 @@ CFG = {
                     "it (Go runtime semantics, modelled as one label per critical section)",
                     "context.WithCancel: cancel() closes Done() and Err() is context.Canceled afterwards",
                     "callers obey the API: Release* only by a caller whose Acquire* returned nil, once, with the same key and kind"],
-    "lint": [{"file": "syncx/semap/map.go", "recv": "SemMap", "methods": ["release"], "lock": "mux", "mode": "lock"}],
+    "lint": [{"file": "syncx/semap/map.go", "recv": "SemMap", "methods": ["release"], "lock": "mux", "mode": "lock"},
+             # SemMap.acquire is ONE critical section handed unbroken to Weighted.acquire (look-up, entry creation, grant/enqueue)
+             {"file": "syncx/semap/map.go", "recv": "SemMap", "methods": ["acquire"], "lock": "mux", "mode": "handoff"}],
 }
